@@ -407,6 +407,7 @@ type NthHold struct {
 	Skip   int
 	D      time.Duration
 	Label  string
+	OnFire func(g *simhook.G) // told when the hold fires (optional)
 }
 
 // TrackRoles records, for every parked goroutine whose site starts with one of the given prefixes,
@@ -492,6 +493,9 @@ func (p *policy) Preempt(g *simhook.G, site string) bool {
 		g.StallUntil = int64(w.Now() + nh.D)
 		w.Stalls++
 		w.Fault("hold-nth@" + nh.Label)
+		if nh.OnFire != nil {
+			nh.OnFire(g)
+		}
 
 		return true
 	}
